@@ -75,6 +75,11 @@ fn gen_stream(stream: &str, n: u64, seed: u64) {
         "relaw" => for _ in 0..n { writeln!(w, "{}", re::gen_relaw_line(&mut r)).unwrap(); },
         "ord" => for _ in 0..n { let a = gen::gen_val(&mut r, 2); let b = if r.chance(1, 6) { a.clone() } else { gen::gen_val(&mut r, 2) }; let c = if r.chance(1, 6) { b.clone() } else { gen::gen_val(&mut r, 2) };
             writeln!(w, "ord {} {} {}", show_in(&a), show_in(&b), show_in(&c)).unwrap(); },
+        "poslaw" => for _ in 0..n {
+            let s: String = match r.below(3) { 0 => gen::gen_str(&mut r), _ => { let k = r.below(9); (0..k).map(|_| *r.pick(&['a', 'b', 'ä', 'ß', '𝄞', 'c', ' ', 'e', '\u{301}', 'Σ', '1'])).collect() } };
+            let cs: Vec<char> = s.chars().collect();
+            let x: String = if r.chance(2, 3) && !cs.is_empty() { let a = r.usize(cs.len()); let b = a + r.usize(cs.len() - a + 1); cs[a..b].iter().collect() } else { (0..r.below(3)).map(|_| *r.pick(&['a', 'ä', 'z', '𝄞'])).collect() };
+            writeln!(w, "poslaw {} {}", hex(&s), hex(&x)).unwrap(); },
         "sortlaw" => for _ in 0..n { let args = call::gen_args(&mut r, "sort"); if let Some(a @ slac::Value::Array(_)) = args.first() { writeln!(w, "sortlaw {}", show_in(a)).unwrap(); } },
         "env" => for _ in 0..n { let big = r.chance(1, 10); let len = 1 + r.usize(if big { 200 } else { 20 }); let wide = r.chance(1, 2); writeln!(w, "{}", tree::gen_env_line(&mut r, len, wide)).unwrap(); },
         "envex" => { let a = tree::env_alphabet().len() as u64; for len in 1..=(n as usize) { for i in 0..a.pow(len as u32) { writeln!(w, "{}", tree::env_exhaustive(i, len)).unwrap(); } } }
